@@ -99,7 +99,9 @@ def backstop_after_end(which, caught: bool, c0: int, c1: int, c2: int, c3: int, 
 
     def pre(run, inst):
         # the engine's own periodic back-stop, as EventDispatcher.heartbeat would call it on its 60th beat
-        inst.conn.set_timeout(lambda: inst.eng.heartbeat(60), 60000)
+        def harness_heartbeat():
+            inst.eng.heartbeat(60)
+        inst.conn.set_timeout(harness_heartbeat, 60000)
     expect = ("SUCCEEDED", {"handled": "Boom"}) if caught else ("FAILED", "Boom")
     return _run(asl, {"x": 1}, [c0, c1, c2, c3, c4, c5, c6, c7], {"fa": worker(True, "Boom", "fa"), "fb": wb}, which, "STANDARD", expect,
                 pre_run=pre, max_steps=200)
@@ -188,3 +190,66 @@ def raw_start_events(which, first: int, c0: int, c1: int, c2: int, c3: int, c4: 
 
 SCN["raw_start_events"] = (["0 <= first < 2"], 300, 900, ("quick", "thorough"))
 scn.__dict__["raw_start_events"] = raw_start_events
+
+
+FALSY = [None, 0, "", False, [], {}]
+
+
+def falsy_branch_output(which, kind: int, vi: int, c0: int, c1: int, c2: int, c3: int, c4: int, c5: int):
+    """A branch / iteration whose output is a falsy JSON value (null, 0, "", false, [], {}): it is a result like any
+    other - the join completes and delivers it at its position."""
+    kind = cint(kind, 0, 1); vi = cint(vi, 0, 5)
+    v = pick(FALSY, vi)
+    sub = {"StartAt": "V", "States": {"V": {"Type": "Pass", "OutputPath": "$.v", "End": True}}}
+    if kind == 0:
+        st = {"Type": "Parallel", "End": True, "Branches": [sub, {"StartAt": "O", "States": {"O": {"Type": "Pass", "Result": 1, "End": True}}}]}
+        data = {"v": v}
+        expect = ("SUCCEEDED", [v, 1])
+    else:
+        st = {"Type": "Map", "ItemsPath": "$.items", "End": True, "Iterator": sub}
+        data = {"items": [{"v": 1}, {"v": v}, {"v": 3}]}
+        expect = ("SUCCEEDED", [1, v, 3])
+    asl = {"StartAt": "F", "States": {"F": st}}
+    return _run(asl, data, [c0, c1, c2, c3, c4, c5], {}, which, "STANDARD", expect, max_steps=100)
+
+
+SCN["falsy_branch_output"] = (["0 <= kind < 2 and 0 <= vi < 6"], 300, 900, ("quick", "thorough"))
+scn.__dict__["falsy_branch_output"] = falsy_branch_output
+
+
+def map_selector_failure(which, bad: int, catch: bool, mc: int, nested: bool, c0: int, c1: int, c2: int, c3: int, c4: int, c5: int):
+    """A Map whose ItemSelector raises States.IntrinsicFailure for item `bad` (0 or 1 of two; 2: none), with or without
+    a matching Catcher on the Map; the Map at top level or (nested) in a Parallel branch.  The Map state itself fails:
+    the Catcher gets the Error Output placed into the MAP's input; without a Catcher the execution fails with
+    States.IntrinsicFailure; either way exactly once, nothing left behind."""
+    bad = cint(bad, 0, 2); catch = cbool(catch); mc = cint(mc, 0, 1); nested = cbool(nested)
+    M = {"Type": "Map", "ItemsPath": "$.items", "MaxConcurrency": mc, "Next": "Z",
+         "Parameters": {"v.$": "States.StringToJson($$.Map.Item.Value)"},
+         "Iterator": {"StartAt": "I", "States": {"I": {"Type": "Pass", "End": True}}}}
+    if catch:
+        M["Catch"] = [{"ErrorEquals": ["States.IntrinsicFailure"], "ResultPath": "$.err", "Next": "H"}]
+    inner = {"M": M, "Z": {"Type": "Pass", "End": True}, "H": {"Type": "Pass", "Parameters": {"keep.$": "$.keep", "caught.$": "$.err.Error"}, "End": True}}
+    if nested:
+        asl = {"StartAt": "P", "States": {"P": {"Type": "Parallel", "End": True, "Branches": [
+            {"StartAt": "M", "States": inner}, {"StartAt": "O", "States": {"O": {"Type": "Pass", "Result": "o", "End": True}}}]}}}
+    else:
+        asl = {"StartAt": "M", "States": inner}
+    items = ["1", "2"]
+    if bad < 2:
+        items[bad] = "{bad json"
+    data = {"items": items, "keep": "me"}
+    if bad == 2:
+        out = [{"v": 1}, {"v": 2}]
+    elif catch:
+        out = {"keep": "me", "caught": "States.IntrinsicFailure"}
+    else:
+        out = None
+    if out is None:
+        expect = ("FAILED", "States.IntrinsicFailure")
+    else:
+        expect = ("SUCCEEDED", [out, "o"] if nested else out)
+    return _run(asl, data, [c0, c1, c2, c3, c4, c5], {}, which, "STANDARD", expect, max_steps=150)
+
+
+SCN["map_selector_failure"] = (["0 <= bad <= 2 and 0 <= mc <= 1"], 300, 900, ("quick", "thorough"))
+scn.__dict__["map_selector_failure"] = map_selector_failure
